@@ -141,6 +141,26 @@ def judge(kind: str, root: str, pre, post_sig, pre_ptr: Optional[bytes]) -> Tupl
         return f"grace-0 collection after the crash deleted referenced files: {after['missing'][:3]}", reflected
     if sorted(r["x"] for r in after["rows"]) != got:
         return "rows changed by the collection after the crash", reflected
+    # ... and much later: whatever in-flight markers the dead writer left behind are past the abandonment window (24 h)
+    # now; a collection sweeps them -- the files they name are committed (post-state) or orphans (pre-state), and the
+    # table must come out unchanged either way
+    infl = os.path.join(root, "metadata", "inflight")
+    leftover = sorted(os.listdir(infl)) if os.path.isdir(infl) else []
+    if leftover:
+        import time as _t
+        old = _t.time() - 25 * 3600
+        for f in leftover:
+            os.utime(os.path.join(infl, f), (old, old))
+        try:
+            datashard.load_table(root).garbage_collect(grace_period_ms=0)
+            later = P.read_table_independent(root)
+        except Exception as e:
+            return f"collection after the leftover markers aged past the abandonment window failed: {type(e).__name__}: {e}"[:300], reflected
+        if later["missing"]:
+            return (f"collection after the dead writer's markers {leftover[:2]} aged past the abandonment window deleted referenced files: "
+                    f"{later['missing'][:3]}"), reflected
+        if sorted(r["x"] for r in later["rows"]) != got:
+            return "rows changed by the collection that swept the dead writer's abandoned markers", reflected
     return None, reflected
 
 
